@@ -41,7 +41,17 @@ Count ==
        /\ CountOK(e.w, e.D, e.counts)
     /\ l' = l + 1
 
-Next == Pick \/ McPick \/ Count
+\* weights that are not small integers (no exact interval arithmetic possible): the selected index is always a valid, enabled channel -
+\* for the floating-point neighbours of every cumulative boundary, 0 and the largest value below 1
+PickAny ==
+    /\ l <= TraceLen
+    /\ LET e == TheTrace[l] IN
+       /\ e.e = "PickAny"
+       /\ Len(e.idx) = e.n /\ e.draws = e.n
+       /\ \A k \in 1 .. Len(e.idx) : e.idx[k] >= 0 /\ e.idx[k] < Len(e.wz) /\ e.wz[e.idx[k] + 1] = 1
+    /\ l' = l + 1
+
+Next == Pick \/ McPick \/ Count \/ PickAny
 Spec == Init /\ [][Next]_vars
 TraceAccepted == TraceAcceptedBy(TraceLen)
 =============================================================================
